@@ -4,7 +4,7 @@ import re
 
 from vlib.flow import ref_place, Expr, Tracer, chain_calls, chain_calls_ip, edge_label, expr_str, expr_strip_blocks, path_summaries
 from vlib.mir import callee_name, op_const, op_local, op_place, strip_generics
-from rules.send import _root_local, first_fragment_fn, followup_fn, send_fn, _position_local
+from rules.send import _root_local, first_fragment_fn, followup_fn, send_fn, _position_local, position_kind, at_start_test
 from rules import fd as _fdrules
 
 USIZE_MAX = 18446744073709551615
@@ -191,13 +191,15 @@ def rule_rx_move(ctx, cfg, F):
                  "serialising a sender pushes a clone")
     n = 0
     for f in sorted(F.fns.values(), key=lambda x: x.path):
-        if f.kind != "Closure" or not f.path.startswith("ipc::serialize_os_ipc_"):
+        # wherever the ipc layer wraps an endpoint for the out-of-band list (the serialisation helpers' closures, or whatever a refactor made of them)
+        if not (f.path.startswith("ipc::") or f.path.startswith("<ipc::")):
             continue
-        tr = Tracer(f)
+        tr = None
         for b in sorted(f.live_blocks()):
             for si, st in enumerate(f.stmts(b)):
                 if st["s"] == "assign" and st["rv"]["r"] == "agg" and (st["rv"]["kind"].get("adt") or "").endswith("::OsIpcChannel"):
                     n += 1
+                    tr = tr or Tracer(f)
                     variant = st["rv"]["kind"]["variant"]
                     roots = tr.roots_of_operand(st["rv"]["a"][0])
                     key = "%s:%s" % (strip_generics(f.path), variant)
@@ -573,6 +575,8 @@ def rule_frag_contig(ctx, cfg, F):
         return
     data_param = next((i for i in range(1, f.argc + 1) if f.local_ty(i) == "&[u8]"), None)
     ffname, funame = strip_generics(ff.path), strip_generics(fu.path)
+    if position_kind(f, P) == "slice":
+        return _frag_contig_slice(R, cfg, f, ff, fu, P, data_param, ex)
     ff_data = next(i for i in range(1, ff.argc + 1) if ff.local_ty(i) == "&[u8]") - 1
     ff_len = next(i for i in range(1, ff.argc + 1) if ff.local_ty(i) == "usize") - 1
     fu_data = next(i for i in range(1, fu.argc + 1) if fu.local_ty(i) == "&[u8]") - 1
@@ -641,6 +645,83 @@ def rule_frag_contig(ctx, cfg, F):
             R.ok("P starts at 0 and its only assignment in the loop is P = E", f.loc(in_loop[0][0]), cfg)
         else:
             R.violate("%s:position-update" % f.path, "the position variable is not updated by exactly `P = E` in the loop (loop assignments: %d, initialisation to 0: %s)" % (len(in_loop), init_ok), f.path, f.loc((in_loop or init or [(0,)])[0][0]), config=cfg)
+    R.count("transmission_sites[%s]" % cfg, n)
+
+
+def _frag_contig_slice(R, cfg, f, ff, fu, P, data_param, ex):
+    """FRAG-CONTIG when the position is kept as the unsent tail `rest: &[u8]`: every in-loop transmission gets a prefix `rest[..n]` (the first one under the guard
+    rest.len() == data.len()), and the only in-loop assignment is `rest = &rest[sent.len()..]` with `sent` the very slice that was transmitted"""
+    ffname, funame = strip_generics(ff.path), strip_generics(fu.path)
+    ff_data = next(i for i in range(1, ff.argc + 1) if ff.local_ty(i) == "&[u8]") - 1
+    ff_len = next(i for i in range(1, ff.argc + 1) if ff.local_ty(i) == "usize") - 1
+    fu_data = next(i for i in range(1, fu.argc + 1) if fu.local_ty(i) == "&[u8]") - 1
+    n = 0
+    sent_vars = set()
+
+    def prefix_of_rest(e):
+        return e[0] == "call" and e[1].endswith("index") and e[2][0] == ("var", P) and e[2][1][0] == "agg" and e[2][1][1].endswith("RangeTo::RangeTo")
+
+    def sent_slice(b, e, what):
+        """the data argument: rest[..n] directly, or a local all of whose definitions are such prefixes"""
+        if prefix_of_rest(e):
+            return True
+        if e[0] == "var":
+            ds = [d for d in f.defs().get(e[1], []) if d[1] is not None and not f.is_cleanup(d[0])]
+            if ds and all(d[2]["rv"]["r"] in ("use", "ref") and prefix_of_rest(expr_strip_blocks(ex.of_operand(d[2]["rv"]["a"][0]) if d[2]["rv"]["r"] == "use" else ex.of_rvalue(d[2]["rv"], 0))) for d in ds):
+                sent_vars.add(e[1])
+                return True
+        return False
+    for b, t in f.calls():
+        nm = strip_generics(callee_name(t))
+        if nm == ffname:
+            n += 1
+            le = expr_strip_blocks(ex.of_operand(t["args"][ff_len]))
+            if le == ("call", "core::slice::len", (("param", data_param),)):
+                R.ok("first-fragment call announces len(data)", f.loc(b), cfg)
+            else:
+                R.violate("%s:announced-length:%s" % (f.path, "loop" if _in_loop(f, b) else "single"), "the total length announced in the header is %s, not len(data)" % expr_str(ex.of_operand(t["args"][ff_len])), f.path, f.loc(b), config=cfg)
+            de = expr_strip_blocks(ex.of_operand(t["args"][ff_data]))
+            if _in_loop(f, b):
+                if sent_slice(b, de, "first"):
+                    R.ok("in-loop first fragment sends a prefix of the unsent tail", f.loc(b), cfg)
+                else:
+                    R.violate("%s:first-fragment-slice" % f.path, "the in-loop first fragment does not send rest[..E] (%s)" % expr_str(de)[:80], f.path, f.loc(b), config=cfg)
+                guard = False
+                for s_ in f.live_blocks():
+                    if f.term(s_)["t"] == "switch" and f.dominates(s_, b):
+                        for tgt in f.succ(s_):
+                            if tgt == b or f.dominates(tgt, b):
+                                if any(at_start_test(f, P, lab, ex) is True for lab in edge_label(f, s_, tgt)):
+                                    guard = True
+                if guard:
+                    R.ok("in-loop first fragment is guarded by rest.len() == data.len()", f.loc(b), cfg)
+                else:
+                    R.violate("%s:first-fragment-guard" % f.path, "the in-loop first fragment is not guarded by position == 0", f.path, f.loc(b), config=cfg)
+            else:
+                if de == ("param", data_param):
+                    R.ok("single-packet attempt sends the whole data slice", f.loc(b), cfg)
+                else:
+                    R.violate("%s:single-packet-slice" % f.path, "the single-packet attempt does not send the whole data slice (%s)" % expr_str(de)[:80], f.path, f.loc(b), config=cfg)
+        elif nm == funame:
+            n += 1
+            de = expr_strip_blocks(ex.of_operand(t["args"][fu_data]))
+            if sent_slice(b, de, "followup"):
+                R.ok("follow-up transmitter sends a prefix of the unsent tail", f.loc(b), cfg)
+            else:
+                R.violate("%s:followup-slice" % f.path, "the follow-up transmitter does not get rest[..N] (%s)" % expr_str(de)[:80], f.path, f.loc(b), config=cfg)
+    defs = [d for d in f.defs().get(P, []) if not f.is_cleanup(d[0]) and d[1] is not None]
+    in_loop = [d for d in defs if _in_loop(f, d[0])]
+    good = False
+    if len(in_loop) == 1:
+        st = in_loop[0][2]
+        e = expr_strip_blocks(ex.of_operand(st["rv"]["a"][0]) if st["rv"]["r"] == "use" else ex.of_rvalue(st["rv"], 0))
+        if e[0] == "call" and e[1].endswith("index") and e[2][0] == ("var", P) and e[2][1][0] == "agg" and e[2][1][1].endswith("RangeFrom::RangeFrom"):
+            adv = e[2][1][2][0]
+            good = len(sent_vars) == 1 and adv == ("call", "core::slice::len", (("var", next(iter(sent_vars))),))
+    if good:
+        R.ok("the tail starts as the whole data and its only assignment in the loop drops exactly the slice that was sent", f.loc(in_loop[0][0]), cfg)
+    else:
+        R.violate("%s:position-update" % f.path, "the unsent tail is not advanced by exactly `rest = &rest[sent.len()..]` in the loop (loop assignments: %d, transmitted slices: %s)" % (len(in_loop), sorted(sent_vars)), f.path, f.loc((in_loop or [(0,)])[0][0]), config=cfg)
     R.count("transmission_sites[%s]" % cfg, n)
 
 
@@ -745,6 +826,24 @@ def rule_reasm_contig(ctx, cfg, F):
         else:
             R.violate("%s:write-window" % g.path, "the follow-up read's destination window is not buffer[W..W+(end-W)] with W = len(buffer): %s" % why, g.path, g.loc(b), config=cfg)
     R.count("followup_reads[%s]" % cfg, n)
+    # room for the whole message is made before the first follow-up read: Vec::reserve(_exact) counts from the length, so the additional
+    # room asked for is (total - len(buffer)); counting from the capacity (or anything else) leaves the buffer short after a shrunk first fragment
+    m = 0
+    for b, t in g.calls_to("std::vec::Vec::reserve_exact", "std::vec::Vec::reserve"):
+        if not any(b2 in g.reachable(t["to"]) for b2, _ in g.calls_to("libc::recv")):
+            continue
+        m += 1
+        buf = expr_strip_blocks(ex.of_operand(t["args"][0]))
+        add = expr_strip_blocks(ex.of_operand(t["args"][1]))
+        if add[0] == "bin" and add[1] in ("Sub", "SubUnchecked", "SubWithOverflow"):
+            if add[3] == ("call", "std::vec::Vec::len", (buf,)):
+                R.ok("room reserved before the follow-up reads is (total - len(buffer))", g.loc(b), cfg)
+            else:
+                R.violate("%s:reservation-not-from-length" % g.path, "the room reserved for the follow-up fragments is total - %s, but Vec::reserve counts from the buffer's length" % expr_str(add[3])[:80],
+                          g.path, g.loc(b), config=cfg)
+        else:
+            R.ok("room reserved before the follow-up reads: %s" % expr_str(add)[:60], g.loc(b), cfg)
+    R.count("reservations[%s]" % cfg, m)
 
 
 
@@ -1050,7 +1149,7 @@ def rule_shm_couple(ctx, cfg, F):
         le = expr_strip_blocks(ex.of_operand(lop))
         ml = expr_strip_blocks(ex.of_operand(mt["args"][1]))
         ok = False
-        if ml[0] == "agg" and ml[1].endswith("Option::Some") and ml[2][0] == le:
+        if ml[0] == "agg" and "::" in ml[1] and len(ml[2]) == 1 and ml[2][0] == le:
             ok = True
         lroots = tr.roots_of_operand(lop)
         if any(r.kind == "call" and r.block == maps[0].block and r.field_idx()[:1] == (1,) for r in lroots) and len(lroots) == 1:
@@ -1182,7 +1281,7 @@ def _norm_mapped_len(F, e):
     derives only from the Some payload of its length parameter, or from fstat when that is None)"""
     if e[0] == "field" and e[2] == 1 and e[1][0] == "call" and e[1][1].endswith("::map_file") and len(e[1][2]) == 2:
         a = e[1][2][1]
-        if a[0] == "agg" and a[1].endswith("Option::Some") and a[2]:
+        if a[0] == "agg" and "::" in a[1] and a[1] not in ("tuple", "array") and len(a[2]) == 1:      # Some(x), or the one-payload variant of a private enum (MapLength::Exactly(x))
             mf = next((g for g in F.fns.values() if strip_generics(g.path).endswith("BackingStore::map_file")), None)
             if mf is not None:
                 tr = Tracer(mf)
@@ -1213,7 +1312,7 @@ def rule_shm_len(ctx, cfg, F):
                 vals["store"] = expr_strip_blocks(ex.of_operand(t["args"][0]))
             elif nm.endswith("::map_file"):
                 e = expr_strip_blocks(ex.of_operand(t["args"][1]))
-                vals["map"] = e[2][0] if e[0] == "agg" and e[1].endswith("Some") else e
+                vals["map"] = e[2][0] if e[0] == "agg" and "::" in e[1] and len(e[2]) == 1 else e
             elif nm in ("std::slice::from_raw_parts_mut", "std::ptr::copy_nonoverlapping", "std::ptr::write_bytes"):
                 pass        # the fill is decided by fill_cover below
         # the region's length: the length part of the construction in this function (constructor call or struct literal)
@@ -1261,6 +1360,56 @@ def rule_shm_sibling(ctx, cfg, F):
         R.ok("create_shmem[%s]: ftruncate(created fd, length) on every path, returns that fd" % sorted(r.id for r in fdr)[0], f.loc(b), cfg)
     else:
         R.violate("platform::unix::create_shmem:shape", "create_shmem: ftruncate on created fd: %s, with the length parameter: %s, returns it: %s, on every path: %s" % (ok_fd, ok_len, ok_ret, dominated), f.path, f.loc(b), config=cfg)
+    # ... and whoever creates a store passes its own length on unchanged: the receiving side sizes its mapping from the file (fstat), so a file
+    # larger or smaller than the region the creator fills shows up as a region of another length
+    n = 0
+    for g in sorted(F.fns.values(), key=lambda x: x.path):
+        if g is f:
+            continue
+        for b2, t2 in g.calls():
+            if strip_generics(callee_name(t2)) != "platform::unix::create_shmem":
+                continue
+            n += 1
+            e = expr_strip_blocks(Expr(g).of_operand(t2["args"][1]))
+            if e[0] == "param" and g.local_ty(e[1]) == "usize":
+                R.ok("%s sizes the store with its length parameter, unchanged" % g.path, g.loc(b2), cfg)
+            else:
+                R.violate("%s:store-size-not-length" % strip_generics(g.path), "the store is created with size %s, not with the length the region is created with: the receiver maps what fstat reports" % expr_str(e)[:120],
+                          g.path, g.loc(b2), config=cfg)
+    R.count("store_creations[%s]" % cfg, n)
+
+
+def rule_shm_unlink(ctx, cfg, F):
+    R = ctx.rule("SHM-UNLINK-FIRST", "a named shared-memory object loses its name before anything else can fail: on every path from shm_open the next OS call is shm_unlink of the same name "
+                 "(sizing, mapping and their assertions come after), so no failure leaves a name behind in /dev/shm")
+    n = 0
+    for f in sorted(F.fns.values(), key=lambda x: x.path):
+        opens = [(b, t) for b, t in f.calls_to("libc::shm_open")]
+        if not opens:
+            continue
+        tr = Tracer(f)
+        for ob, ot in opens:
+            n += 1
+            unl = {b for b, t in f.calls_to("libc::shm_unlink")}
+            other = {b for b, t in f.calls() if b != ob and b not in unl and (t.get("foreign") or strip_generics(callee_name(t)).startswith("libc::"))}
+            nxt = f.term(ob).get("to", -1)
+            if not unl:
+                R.violate("%s:name-never-removed" % f.path, "%s creates a named object with shm_open and never unlinks the name" % f.path, f.path, f.loc(ob), config=cfg)
+                continue
+            # an OS call other than shm_unlink reachable from shm_open without passing shm_unlink
+            reach = f.reachable(nxt, avoid=unl) if nxt >= 0 else set()
+            early = sorted(b for b in other if b in reach)
+            # every path from shm_open (with a descriptor) reaches shm_unlink or leaves through the failed-open assertion only
+            ex = Expr(f)
+            same_name = all(expr_strip_blocks(ex.of_operand(f.term(u)["args"][0])) == expr_strip_blocks(ex.of_operand(ot["args"][0])) for u in unl)
+            if early:
+                R.violate("%s:os-call-before-unlink" % f.path, "%s is called between shm_open and shm_unlink: if it fails (its assertion panics) the name stays in /dev/shm" % strip_generics(callee_name(f.term(early[0]))),
+                          f.path, f.loc(early[0]), config=cfg)
+            elif not same_name:
+                R.violate("%s:unlinks-other-name" % f.path, "shm_unlink is not given the name passed to shm_open", f.path, f.loc(min(unl)), config=cfg)
+            else:
+                R.ok("%s: shm_unlink(name) is the first OS call after shm_open(name)" % f.path, f.loc(ob), cfg)
+    R.count("named_objects[%s]" % cfg, n)
 
 
 def rule_shm_inproc(ctx, cfg, F):
